@@ -6,6 +6,7 @@ From Coq Require Import ZArith List.
 From Coq Require Import Lia.
 From Arsenal Require Import Util Bits Gran Tlsf TlsfStep TlsfProps.
 From Arsenal Require Linear LinearInv LinearAlloc LinearFree LinearStep LinearSwap LinearVisit LinearProps.
+Import ListNotations.
 Open Scope Z_scope.
 
 Theorem C17_tlsf_lookup_own : forall h gr size ops,
